@@ -54,7 +54,7 @@ def thin_event(darsia, rng, tid, m1, m2, big=False):
         if reg != "default":
             extra["regularization"] = float(reg)
         d = float(solve(darsia, img1, img2, method, mode, mob, extra=extra))
-        e["d2"] = int(round(2 * d)) if abs(2 * d - round(2 * d)) <= 1e-5 * (1 + abs(2 * d)) else -1
+        e["d2"] = int(round(2 * d)) if np.isfinite(d) and abs(d) < 1e8 and abs(2 * d - round(2 * d)) <= 1e-5 * (1 + abs(2 * d)) else -1
         e["d_6"] = d6(d) if abs(d) < 2000 else -1
     except Exception as ex:  # noqa
         e["raised"] = 1
